@@ -7,7 +7,7 @@ prop("C18",
          "thorough": [dict(flavour="tsan", cases=1500, max_shards=4, timeout=8 * 3600)],
      },
      min_nontrivial={"quick": 200, "thorough": 1000},
-     min_obs={"quick": {"lazy_runs": 100, "cache_runs": 100, "project_runs": 50, "objective_runs": 40, "scatter_runs": 40,
+     min_obs={"quick": {"lazy_runs": 100, "lazy_cases_with_ring_tables_rearmed": 25, "cache_runs": 100, "project_runs": 50, "objective_runs": 40, "scatter_runs": 40,
                         "lazy_first_use_events": 20, "cache_inserts": 100, "bp_local_images_created": 10,
                         "dist_viewgram_events": 50,
                         # projection data shared by all threads through ONE fstream (ProjDataFromStream), as in a real reconstruction
@@ -16,7 +16,9 @@ prop("C18",
      rule=("case = one workload (round robin: lazy geometry tables used concurrently from the first call / system-matrix cache "
            "from the first call / whole-data forward+back projection / log-likelihood gradient, value, sensitivity, Hessian product "
            "through distributable_computation and the (approximate) Hessian loops, with the measured data and additive term in memory or in an Interfile file that all threads read through one shared stream / single-scatter simulation) on a generated small geometry, with 2..16 threads (also "
-           "more threads than work items), repeated with FRESH objects so every first-use race is re-armed, under a seeded PCT-style "
+           "more threads than work items), repeated with FRESH objects so every first-use race is re-armed (the ring-difference tables, which "
+           "the constructor builds, are re-armed in 80% of the lazy-table cases by calling set_ring_spacing / set_min_ring_difference / "
+           "set_max_axial_pos_num / reduce_segment_range with the value the object already has), under a seeded PCT-style "
            "schedule perturbation injected at STIR's own synchronisation points; compared with the single-thread run.  "
            "non-trivial = every repetition ran with >1 thread and was compared; distinct = distinct interleaving signatures "
            "(hash of the (site, thread) order at first-use / cache-insert / per-thread-image sites) plus distinct case descriptors"),
